@@ -47,7 +47,7 @@ def ident_of_lib_record(r: Any) -> Optional[Tuple]:
     if t == 'DNSAddress':
         return ('A' if r.type == 1 else 'AAAA', r.name.lower(), r.address.hex())
     if t == 'DNSNsec':
-        return ('NSEC', tuple(r.rdtypes), r.ttl)
+        return ('NSEC', tuple(r.rdtypes), r.ttl, r.name.lower())
     return None
 
 
@@ -85,6 +85,7 @@ class RespRun:
         self.api_events: List[Dict[str, Any]] = []
         self.world: Optional[sim.World] = None
         self.end_ms = 0.0
+        self.assemblies: List[Dict[str, Any]] = []
 
     # -- helpers -----------------------------------------------------------------------------------
     def last_sighting(self, ident: Tuple, before_g: int) -> Optional[Tuple[float, float, int]]:
@@ -128,8 +129,21 @@ class RespRun:
     # -- execution ---------------------------------------------------------------------------------
     def execute(self) -> None:
         j = self.sc.get('jitter', {'seed': 1})
+        import zeroconf._handlers.query_handler as qh
+
         with sim.World(jitter_seed=j.get('seed', 1), jitter_explicit=j.get('explicit'), jitter_keyed=j.get('keyed', False)) as w:
             self.world = w
+            run = self
+            orig = qh.QueryHandler.handle_assembled_query
+
+            def observed(self_, packets, addr, port, transport, v6_flow_scope):
+                # harness-side observation of which packets were assembled into one query, and when
+                w.gseq += 1
+                run.assemblies.append({'g': w.gseq, 't_ms': w.now_ms, 'datas': [p.data for p in packets], 'addr': addr,
+                                       'port': port})
+                return orig(self_, packets, addr, port, transport, v6_flow_scope)
+
+            w._patch(qh.QueryHandler, 'handle_assembled_query', observed)
             w.run(self._main(w))
             self.errors = list(w.errors)
             self.draws = list(w.jitter.draws)
@@ -301,6 +315,7 @@ class RespRun:
                 d['response'] = bool(m['flags'] & 0x8000)
                 d['an'] = [(rp.ident_of_wire_rr(r), r['ttl'], bool(r['cls'] & 0x8000)) for r in m['an']]
                 d['ar'] = [(rp.ident_of_wire_rr(r), r['ttl'], bool(r['cls'] & 0x8000)) for r in m['ar']]
+                d['owners'] = [wire.name_text(r['name']).lower() for r in m['an'] + m['ar']]
             self.sends.append(d)
 
     def expected(self, q: Dict[str, Any]):
